@@ -28,6 +28,9 @@ import (
 //   R:<cfg>   casket.Instances()[0].Restart(cfg)      (the instance SIGUSR1 reloads)
 //   X         casket.Stop()
 //   G<n>      n concurrent calls of executeShutdownCallbacks (what SIGINT/SIGTERM run before exiting)
+//   GR:<cfg>  executeShutdownCallbacks on one goroutine and, as soon as its first callback runs, Instances()[0].Restart(cfg) on
+//             another: a reload that tries to change the instance list DURING the shutdown pass.  Counts as two operations
+//             (two generations, two segments: first what the shutdown pass did, then what the reload did)
 //
 //   cfg = <servers>/<fail>/<flags>
 //     servers  comma list of  <kind><addr>[!]   kind f graceful server whose listener has File(),
@@ -71,6 +74,19 @@ type c16Event struct {
 	code string // two letters
 	gen  int
 	idx  int
+	gid  int64 // goroutine that recorded it
+}
+
+// id of the calling goroutine (from the header of its stack trace)
+func c16Gid() int64 {
+	var buf [64]byte
+	n := runtime.Stack(buf[:], false)
+	f := strings.Fields(string(buf[:n]))
+	if len(f) < 2 {
+		return -1
+	}
+	id, _ := strconv.ParseInt(f[1], 10, 64)
+	return id
 }
 
 func (e c16Event) String() string { return fmt.Sprintf("%s%d.%d", e.code, e.gen, e.idx) }
@@ -86,7 +102,7 @@ var c16rec = &c16Recorder{}
 
 func (r *c16Recorder) log(code string, gen, idx int) {
 	r.mu.Lock()
-	e := c16Event{len(r.events), code, gen, idx}
+	e := c16Event{len(r.events), code, gen, idx, c16Gid()}
 	r.events = append(r.events, e)
 	if r.sink != nil {
 		io.WriteString(r.sink, e.String()+"\n")
@@ -611,10 +627,101 @@ func c16Eval(f []string) (string, []string) {
 		return b.String()
 	}
 
-	for i, opS := range f {
-		gen := i + 1
+	doRestart := func(gen int, cfg c16Cfg) string {
+		insts := casket.Instances()
+		if len(insts) == 0 {
+			tags["restart-noinst"] = true
+			return "noinst"
+		}
+		res := "ok"
+		old := insts[0]
+		ni, err := old.Restart(c16Input(gen, cfg))
+		switch {
+		case err != nil:
+			res = "err"
+			// the quirk of a late failure: a new instance may be running although an error came back
+			for _, x := range casket.Instances() {
+				if _, known := lineageOfInst[x]; !known {
+					lineageOfInst[x] = lineageOfInst[old]
+					lineageOfGen[gen] = lineageOfInst[old]
+					settle(x)
+				}
+			}
+		case ni == nil:
+			res = "nil"
+		default:
+			lineageOfInst[ni] = lineageOfInst[old]
+			lineageOfGen[gen] = lineageOfInst[old]
+			settle(ni)
+		}
+		tags["restart-"+res] = true
+		return res
+	}
+	emit := func(res string, evs []c16Event) {
+		c := c16Canon(evs)
+		if len(c) > 200 {
+			c = append(c[:200], "truncated")
+		}
+		segs = append(segs, res+";"+strings.Join(c, ",")+";"+observeWait())
+	}
+
+	gen := 0
+	for _, opS := range f {
+		gen++
 		m := c16rec.mark()
 		res := "ok"
+		if strings.HasPrefix(opS, "GR:") {
+			cfg, ok := c16ParseCfg(opS[3:])
+			if !ok {
+				bad = true
+				break
+			}
+			bits0 := observeWait()
+			gidCh := make(chan int64, 1)
+			sigDone := make(chan struct{})
+			go func() {
+				gidCh <- c16Gid()
+				casket.VerifC16ExecuteShutdownCallbacks("SIGTERM")
+				close(sigDone)
+			}()
+			gG := <-gidCh
+			// wait until the pass runs its first callback (or ends without running any)
+			deadline := time.Now().Add(c16Patience())
+		passStarted:
+			for time.Now().Before(deadline) {
+				select {
+				case <-sigDone:
+					break passStarted
+				default:
+				}
+				for _, e := range c16rec.since(m) {
+					if e.gid == gG {
+						break passStarted
+					}
+				}
+				time.Sleep(100 * time.Microsecond)
+			}
+			gen++
+			rres := doRestart(gen, cfg)
+			select {
+			case <-sigDone:
+			case <-time.After(c16Patience()):
+				c16Expired++
+			}
+			var ge, re []c16Event
+			for _, e := range c16rec.since(m) {
+				if e.gid == gG {
+					ge = append(ge, e)
+				} else {
+					re = append(re, e)
+				}
+			}
+			c := c16Canon(ge)
+			segs = append(segs, "ok;"+strings.Join(c, ",")+";"+bits0)
+			emit(rres, re)
+			tags["signal-during-reload"] = true
+			continue
+		}
 		switch {
 		case strings.HasPrefix(opS, "S:") || strings.HasPrefix(opS, "R:"):
 			cfg, ok := c16ParseCfg(opS[2:])
@@ -642,33 +749,7 @@ func c16Eval(f []string) (string, []string) {
 				}
 				tags["start-"+res] = true
 			} else {
-				insts := casket.Instances()
-				if len(insts) == 0 {
-					res = "noinst"
-					tags["restart-noinst"] = true
-					break
-				}
-				old := insts[0]
-				ni, err := old.Restart(c16Input(gen, cfg))
-				switch {
-				case err != nil:
-					res = "err"
-					// the quirk of a late failure: a new instance may be running although an error came back
-					for _, x := range casket.Instances() {
-						if _, known := lineageOfInst[x]; !known {
-							lineageOfInst[x] = lineageOfInst[old]
-							lineageOfGen[gen] = lineageOfInst[old]
-							settle(x)
-						}
-					}
-				case ni == nil:
-					res = "nil"
-				default:
-					lineageOfInst[ni] = lineageOfInst[old]
-					lineageOfGen[gen] = lineageOfInst[old]
-					settle(ni)
-				}
-				tags["restart-"+res] = true
+				res = doRestart(gen, cfg)
 			}
 		case opS == "X":
 			if c16GuardedStop() {
@@ -697,11 +778,7 @@ func c16Eval(f []string) (string, []string) {
 		if bad {
 			break
 		}
-		evs := c16Canon(c16rec.since(m))
-		if len(evs) > 200 {
-			evs = append(evs[:200], "truncated")
-		}
-		segs = append(segs, res+";"+strings.Join(evs, ",")+";"+observeWait())
+		emit(res, c16rec.since(m))
 	}
 
 	// stray events (goroutines that should not exist), then clean up for the next case
@@ -794,6 +871,21 @@ func c16Gen(g *hx.Gen) {
 			}
 		}
 		rec4(nil, 4)
+	}
+
+	// a reload that tries to change the instance list WHILE the shutdown pass runs (two or more live instances; the first one's
+	// shutdown callback is slow so that the reload arrives in the middle of the pass; each costs about 0.3 s)
+	for _, c := range [][]string{
+		{"S:f1/-/w", "S:f2/-/", "GR:f1/-/"},
+		{"S:f1/-/w", "S:f2/-/", "GR:f1/-/", "X"},
+		{"S:f1/-/w", "S:f2,n3/-/", "S:f4/-/", "GR:f1,f5/-/", "G1"},
+		{"S:f1/-/w", "S:f2/-/s", "GR:/-/"},
+		{"S:f1/-/w", "S:p2/-/", "GR:f1/setup/", "R:f1/-/"},
+		{"S:f1/-/w", "R:f1/-/w", "S:f2/-/", "GR:f1,f3/-/"},
+		{"S:f1/-/w", "S:f2/-/", "S:f3/-/", "GR:f1/startup/"},
+		{"S:f1/-/", "GR:f1/-/"}, {"GR:f1/-/"}, {"S:f1/-/w", "S:f2/-/", "G1", "GR:f1/-/"},
+	} {
+		g.Case(c...)
 	}
 
 	// seeded structured random: longer histories, more servers, all flags
